@@ -1,5 +1,7 @@
 #!/bin/bash
 # seedall.sh [tier]: apply every kept seeded change in turn to /repo, run the check of its property, undo it.
+# (Every run builds a different overlay: the Go build cache grows by tens of GB over a full pass - run
+# `go clean -cache && ./setup.sh` afterwards.)
 # Prints one line per seed: CAUGHT (exit 1 with VIOLATION), MISSED (exit 0), N/A (patch no longer applies), ERROR.
 cd "$(dirname "$0")"; T=${1:-quick}
 [ -z "$(git -C /repo status --porcelain)" ] || { echo "/repo not clean"; exit 3; }
